@@ -178,20 +178,43 @@ def run(rep: Report) -> None:
         it = r.interp
         ratio = q.value() / me.reference.value()
         want = me.k / me.pval * it.ln(ratio) / it.ln(me.base)
+        # `if base == 10: return math.log10(x)`: under that arm's path condition ln(B) is ln(10)
+        base_is: Dict[str, int] = {}
+        for ev_ in r.events:
+            if ev_.kind == "cmp" and ev_.data.get("op") == "Eq":
+                a_, b_ = ev_.data.get("left"), ev_.data.get("right")
+                for x_, y_ in ((a_, b_), (b_, a_)):
+                    if isinstance(x_, NumV) and isinstance(y_, NumV) and x_.rat == me.base and y_.rat.d == Rat.const(1).n and not y_.rat.atoms():
+                        cst = y_.rat.n.terms.get((), None)
+                        if cst is not None and cst.denominator == 1:
+                            base_is[ast.unparse(ev_.node)] = int(cst)
         for o in r.outcomes:
             if o.kind != "return":
                 continue
             n += 1
             v = o.value
-            ok = isinstance(v, LevelV) and v.mag.rat == want
-            rep.check("R18.1", "LogarithmicUnit.level", ok,
+            if not isinstance(v, LevelV) or "Opaque" in repr(v.mag.rat):
+                # not a verdict: the logarithm is computed by something the interpreter does not model
+                rep.defer(AnalysisError(f"LogarithmicUnit.level returns {describe(v)} on the path {[t for t, _ in o.path][-2:]}: outside the interpreted subset"))
+                rep.rules["R18.1"].floor = 0
+                continue
+            want_o = want
+            for t_, tv in o.path:
+                parts_ = t_[t_.index(": ") + 2:].rstrip(">").split(" & ") if t_.startswith("<") and ": " in t_ else [t_]
+                for part in parts_:
+                    for txt, cst in base_is.items():
+                        if tv and part.strip() == txt:
+                            want_o = want_o.subst("ln(B)", it.ln(Rat.const(cst)))
+            ok = isinstance(v, LevelV) and v.mag.rat == want_o
+            rep.check("R18.1", "LogarithmicUnit.level" + ("|" + "&".join(t for t, tv in o.path if tv)[:60] if o.path else ""), ok,
                       f"level() returns magnitude {v.mag.rat if isinstance(v, LevelV) else describe(v)!r}; the definition is "
-                      f"(k/p) * log_B(q/ref) = {want!r}", fi.where(o.node))
+                      f"(k/p) * log_B(q/ref) = {want_o!r}", fi.where(o.node))
             rep.check("R18.1", "LogarithmicUnit.level:unit", isinstance(v, LevelV) and v.unit is me,
                       "level() does not return a Level of this logarithmic unit", fi.where(o.node))
         logs = [e for e in r.events if e.kind == "log" and e.data.get("func") == "LogarithmicUnit.level"]
         if not logs:
-            raise AnalysisError("LogarithmicUnit.level: no math.log call found")
+            rep.defer(AnalysisError("LogarithmicUnit.level: no math.log call found"))
+            rep.rules["R18.2"].floor = 0
         for e in logs:
             a = e.data["arg"]
             dimless = isinstance(a, NumV) and (a.ut is None or (not a.ut.p.mono and not a.ut.f.mono))
